@@ -1,5 +1,6 @@
 import Tumfl.Spec.Show
 import Tumfl.Model.Lexer
+import Tumfl.Model.Dump
 /-!
 # Line-protocol driver
 
@@ -71,7 +72,7 @@ def showMTok (t : Model.Token) : String :=
 
 def showPyErr : Model.PyErr → String
   | .lexer _ l c => s!"lexer {l} {c}"
-  | .parser _ t hs => s!"parser {t.type.name} {t.line} {t.column} [{",".intercalate (hs.map fun h => s!"{h.«where»}/{h.what}@{h.token.line}:{h.token.column}")}]"
+  | .parser _ t hs => s!"parser {t.type.name} {t.line} {t.column} {Model.dumpHints hs}"
   | .dependency _ t => s!"dependency {t.line} {t.column}"
   | .py k site => s!"py {k} {site}"
   | .fuel => "fuel"
@@ -130,6 +131,13 @@ def handle (line : String) : String :=
     | some src =>
       match Model.lexText { typed := typed == "1" } src with
       | .ok ts => "ok " ++ Spec.sp (ts.map showMTok)
+      | .error e => "err " ++ showPyErr e
+  | ["mparse", h] =>
+    match decodeText h with
+    | none => "bad-op"
+    | some src =>
+      match Model.parseText src with
+      | .ok (b, hs) => "ok " ++ Model.dumpHints hs ++ " " ++ Model.dumpBlock b
       | .error e => "err " ++ showPyErr e
   | ["numval", h] =>
     match decodeText h with
